@@ -32,9 +32,10 @@ VARIABLES tid,     \* which trace / which model instance
           phase,   \* "idle" | "running" | "overflow" | "exhausted" | "projraised" | "returned"
           limit,   \* the interpreter's recursion limit
           saved,   \* the limit evaluate_bounded found
-          result,  \* projections collected so far
+          result,  \* projections collected so far (exhaustive model; stays empty while a trace is validated)
+          nres,    \* how many projections have been collected: they are Ref[1..nres]  (ResultIsCounted)
           pos      \* answers consumed from ref
-vars == <<tid, l, phase, limit, saved, result, pos>>
+vars == <<tid, l, phase, limit, saved, result, nres, pos>>
 
 \* ---------------------------------------------------------------- model instances
 \* small instances for exhaustive exploration
@@ -46,29 +47,37 @@ Complete == IF Traces = <<>> THEN Inst[tid].complete ELSE Traces[tid].complete
 Shallow  == IF Traces = <<>> THEN Inst[tid].shallow ELSE Traces[tid].shallow
 
 EB_Begin(L) == /\ phase = "idle"
-               /\ saved' = limit /\ limit' = L /\ phase' = "running" /\ result' = <<>> /\ pos' = 0
+               /\ saved' = limit /\ limit' = L /\ phase' = "running" /\ result' = <<>> /\ nres' = 0 /\ pos' = 0
+\* (while a trace is validated the sequence itself is not carried in the state: a trace of tens of
+\* thousands of answers would make every state as long as the trace; ResultIsCounted, checked on the
+\* exhaustive model, is the lemma that the count determines the sequence)
 EB_Answer == /\ phase = "running" /\ pos < Len(Ref)
-             /\ pos' = pos + 1 /\ result' = Append(result, Ref[pos + 1])
+             /\ pos' = pos + 1 /\ nres' = nres + 1
+             /\ result' = IF Traces = <<>> THEN Append(result, Ref[pos + 1]) ELSE result
              /\ UNCHANGED <<phase, limit, saved>>
 EB_ProjRaise == /\ phase = "running" /\ pos < Len(Ref)
                 /\ pos' = pos + 1 /\ phase' = "projraised"
-                /\ UNCHANGED <<result, limit, saved>>
+                /\ UNCHANGED <<result, nres, limit, saved>>
 EB_Overflow == /\ phase = "running" /\ ~(Shallow /\ Complete)
-               /\ phase' = "overflow" /\ UNCHANGED <<result, limit, saved, pos>>
+               /\ phase' = "overflow" /\ UNCHANGED <<result, nres, limit, saved, pos>>
 EB_Exhausted == /\ phase = "running" /\ pos = Len(Ref) /\ Complete
-                /\ phase' = "exhausted" /\ UNCHANGED <<result, limit, saved, pos>>
+                /\ phase' = "exhausted" /\ UNCHANGED <<result, nres, limit, saved, pos>>
 EB_End == /\ phase \in {"overflow", "exhausted", "projraised"}
-          /\ limit' = saved /\ phase' = "returned" /\ UNCHANGED <<result, saved, pos>>
+          /\ limit' = saved /\ phase' = "returned" /\ UNCHANGED <<result, nres, saved, pos>>
+Result == IF Traces = <<>> THEN result ELSE SubSeq(Ref, 1, nres)
 
 
 \* properties of the model (C17)
 LimitRestored     == phase = "returned" => limit = saved
-BoundedIsPrefix   == IsPrefix(result, Ref)
+\* (for a trace the collected sequence is Ref[1..nres] by construction; what is checked there is that the
+\* implementation's returned list equals it, in TEnd)
+BoundedIsPrefix   == (Traces = <<>>) => IsPrefix(result, Ref)
+ResultIsCounted   == (Traces = <<>>) => (result = SubSeq(Ref, 1, nres) /\ nres <= pos /\ pos <= nres + 1)
 CompleteIfShallow == (phase = "exhausted" \/ (phase = "returned" /\ Shallow /\ Complete /\ pos = Len(Ref))) => TRUE
 NoOverflowWhenShallow == (Shallow /\ Complete) => phase # "overflow"
 
 \* ---------------------------------------------------------------- exhaustive exploration
-MInit == /\ tid \in 1..Cardinality(Model) /\ l = 0 /\ phase = "idle" /\ limit = 1000 /\ saved = 0 /\ result = <<>> /\ pos = 0
+MInit == /\ tid \in 1..Cardinality(Model) /\ l = 0 /\ phase = "idle" /\ limit = 1000 /\ saved = 0 /\ result = <<>> /\ nres = 0 /\ pos = 0
 MNext == /\ UNCHANGED <<tid, l>>
          /\ \/ EB_Begin(Inst[tid].L)
             \/ (EB_Answer /\ pos + 1 # Inst[tid].raiseAt)
@@ -93,15 +102,15 @@ TEnd == /\ Ev.ev = "end"
                   [] why = "exhausted" -> phase = "running" /\ pos = Len(Ref) /\ Complete
                   [] why = "projraised" -> phase = "projraised"
              /\ Ev.escaped = (IF why = "projraised" THEN "proj" ELSE "none")
-             /\ (why # "projraised" => Ev.result = result)
+             /\ (why # "projraised" => Ev.result = Result)
         /\ limit' = saved /\ limit' = Ev.after
         /\ Ev.bound = 0
-        /\ phase' = "returned" /\ UNCHANGED <<result, saved, pos>>
+        /\ phase' = "returned" /\ UNCHANGED <<result, nres, saved, pos>>
 TraceNext == /\ l < Len(Events)
              /\ (TBegin \/ TAnswer \/ TEnd)
              /\ l' = l + 1 /\ tid' = tid
 TInit == /\ tid \in 1..Len(Traces) /\ l = 0 /\ phase = "idle" /\ limit = Events[1].before
-         /\ saved = 0 /\ result = <<>> /\ pos = 0
+         /\ saved = 0 /\ result = <<>> /\ nres = 0 /\ pos = 0
 TraceSpec == TInit /\ [][TraceNext]_vars
 Accept == (l = Len(Events)) => PrintT(<<"ACCEPT", tid>>)
 Stuck == (l < Len(Events) /\ ~ENABLED TraceNext) => PrintT(<<"STUCK", tid, l + 1, Ev.ev>>)
